@@ -1,7 +1,7 @@
 (* C14/ProofsPrim.v — the primitives' generic header and GRANDPA justification: the encoding
    pkg/scale produces for runtime.Digest (items without their variant index) is the reference
    encoding exactly on headers without digest items; the hash of a decoded header. *)
-From Common Require Import Bytes Blake2b.
+From Common Require Import Bytes Outcome Blake2b.
 From C14 Require Import Proofs.
 Local Open Scope N_scope.
 
@@ -66,6 +66,44 @@ Proof.
   destruct (has_digest_items h) eqn:E; [|reflexivity].
   assert (existsb has_digest_items hs = true) by (apply existsb_exists; eauto). congruence.
 Qed.
+
+(* ---- decoding the reference encoding into the generic types ---- *)
+Lemma prim_header_wf : wf_ty prim_header = true. Proof. vm_compute. reflexivity. Qed.
+Lemma prim_just_wf : wf_ty prim_justification = true. Proof. vm_compute. reflexivity. Qed.
+
+Lemma decode_generic_header_ok v : has_type prim_header v = true -> has_digest_items v = false ->
+  decode_generic_header (encode prim_header v) = Ok v.
+Proof.
+  intros Ht Hd. unfold decode_generic_header.
+  rewrite (decode_all_encode prim_header v prim_header_wf Ht), Hd. reflexivity.
+Qed.
+Lemma decode_generic_just_ok v : has_type prim_justification v = true -> just_has_digest_items v = false ->
+  decode_generic_just (encode prim_justification v) = Ok v.
+Proof.
+  intros Ht Hd. unfold decode_generic_just.
+  rewrite (decode_all_encode prim_justification v prim_just_wf Ht), Hd. reflexivity.
+Qed.
+(* the crash is exactly the guard *)
+Lemma decode_generic_header_panic bs :
+  decode_generic_header bs = Panic <->
+  exists v, decode_all prim_header bs = Some v /\ has_digest_items v = true.
+Proof.
+  unfold decode_generic_header. split.
+  - destruct (decode_all prim_header bs) as [v|]; [|discriminate].
+    destruct (has_digest_items v) eqn:E; [eauto | discriminate].
+  - intros (v & -> & ->). reflexivity.
+Qed.
+Lemma decode_generic_just_panic bs :
+  decode_generic_just bs = Panic <->
+  exists v, decode_all prim_justification bs = Some v /\ just_has_digest_items v = true.
+Proof.
+  unfold decode_generic_just. split.
+  - destruct (decode_all prim_justification bs) as [v|]; [|discriminate].
+    destruct (just_has_digest_items v) eqn:E; [eauto | discriminate].
+  - intros (v & -> & ->). reflexivity.
+Qed.
+Lemma decode_generic_witness : decode_generic_header (encode prim_header untagged_witness) = Panic.
+Proof. vm_compute. reflexivity. Qed.
 
 (* a header decoded from the wire hashes to BLAKE2b-256 of the received bytes *)
 Lemma header_hash_decoded bs v : decode_all header bs = Some v ->
